@@ -3,9 +3,9 @@
 import json
 ids = [json.loads(l)["id"] for l in open("/verif/properties.jsonl")]
 TB = ("Trusted: Lean 4.33 kernel (propext, Classical.choice, Quot.sound only); Spec/*.lean transcriptions; the Go translator "
-      "and correspondence harness; dependencies answered as oracles (Go crypto, crypto/x509, go-tpm, go-jose; the SAN/RDN parse by encoding/asn1); "
-      "encoding/asn1 (key description, Apple nonce, AAGUID extension), encoding/json (client data), net/url (host extraction), base64, uuid and "
-      "fxamacker/cbor are Lean MODELS of the installed versions, tied to those packages by differential execution, not by translation of their source. "
+      "and correspondence harness; dependencies answered as oracles (Go crypto, crypto/x509, go-jose, the set of linked hash algorithms); "
+      "encoding/asn1 (key description, Apple nonce, AAGUID extension, SAN/RDN walk), encoding/json (client data), net/url (host extraction), go-tpm "
+      "TPMS_ATTEST / TPMT_PUBLIC codec, base64, uuid and fxamacker/cbor are Lean MODELS of the installed versions, tied to those packages by differential execution, not by translation of their source. "
       "The theorems are about the Lean model; the model is tied to /repo by regenerated tables (translator) and by "
       "differential execution (harness) on every run.")
 claimed = {
@@ -99,7 +99,7 @@ claimed = {
         "certificates with all attribute subsets/orders; key descriptions (valid, reordered, damaged, hand-written corner cases, random) from an independent DER "
         "encoder against the real Unmarshal / Marshal, value by value.",
    ref="DESIGN.md §8 C17, §0.2", technique="Lean 4 proof over regenerated tables and schemas (incl. ASN.1 codec round trip) + differential execution with ground truth",
-   note="PARTIAL: the SAN / RDN parse is encoding/asn1's (oracle). Known finding D14 (NULL-typed Keymaster elements encoded as EXPLICIT NULL are not read) is listed in known_findings.json and reported as KNOWN-FINDING."),
+   note="The SAN / RDN walk is modelled at byte level (Model/San.lean; C17San.parseExt_tpmSan); time-typed attribute values are unmodelled and skipped. Known finding D14 (NULL-typed Keymaster elements encoded as EXPLICIT NULL are not read) is listed in known_findings.json and reported as KNOWN-FINDING."),
  "C02": dict(
    text="Lean theorems: the registration model decomposes into a storage-independent decision and a storage step (reg_decompose); the decision succeeds iff "
         "every ceremony condition of the property holds and then yields the ATTESTED credential id and key (regPre_iff against Spec.RegPreOK: client-data type / "
